@@ -121,6 +121,20 @@ func c17World(c *explore.Ctx, nNodes int, subs []c17Sub, unsubFirst bool, pubs [
 					c.Violate("propagation", "view-differs-after-settle", cas(), want, got)
 					return
 				}
+				// and equals what the harness itself subscribed on b (independent of the plugin's
+				// own bookkeeping of local subscriptions)
+				var ref []string
+				for k := range table {
+					parts := strings.SplitN(k, "|", 2)
+					if parts[0] == fmt.Sprint(j) {
+						ref = append(ref, parts[1])
+					}
+				}
+				sort.Strings(ref)
+				if got, want := strings.Join(a.fn.ViewOf(b.name), ","), strings.Join(ref, ","); got != want {
+					c.Violate("propagation", "view-differs-from-the-subscriptions-made", cas(), want, got)
+					return
+				}
 			}
 		}
 		retainedRef := map[string]string{}
